@@ -327,8 +327,5 @@ Qed.
 
 (* table side conditions on the regenerated constants *)
 From SWH Require Import Generated.
-Lemma dentry_perms_octal :
-  map oct DENTRY_PERMS = [bs "100644"; bs "100755"; bs "120000"; bs "40000"; bs "160000"].
-Proof. vm_compute. reflexivity. Qed.
 Lemma tree_is_git_type : mem_bytes (bs "tree") GIT_OBJECT_TYPES = true.
 Proof. vm_compute. reflexivity. Qed.
